@@ -85,6 +85,42 @@ ACCUMULATORS = {
 }
 
 
+def gapfill(run, fx):
+    """associateChars extends a slot's before / after over neighbouring characters no slot claimed on that side: the loop that
+    fills char.after runs while char.after is unset, the one that fills char.before while char.before is unset -- and depends on
+    nothing else about the character.  (A stricter test, e.g. `both unset`, stops the second fill at every character the first one
+    reached: those characters keep before == -1 and lie in no slot's range.)"""
+    import re
+    fn = fx.one('graphite2::Segment::associateChars')
+    n = 0
+    for e in calls_in(fn):
+        fq = e.get('fq') or ''
+        if fq not in ('graphite2::CharInfo::after', 'graphite2::CharInfo::before') or not e.get('args'):
+            continue
+        own = fq.split('::')[-1]
+        recv = fn.render(fn.deref(e['obj']), resolve=True)
+        fs = [f[:3] for f in dom.facts_at(fn, e['i'])]
+        about = {}
+        for f in fs:
+            for side, other in ((f[0], f[2]), (f[2], f[0])):
+                if side.startswith((recv + '.', recv + '->', '(*' + recv + ').')):
+                    m = re.match(r'(?:m_)?(before|after)\b', side[side.index(recv) + len(recv):].lstrip(').->'))
+                    about.setdefault(m.group(1) if m else side, []).append(f)
+        unset = [f for f in about.get(own, []) if dom.implies(f, (f[0], '<', '0'))]
+        if not unset:
+            continue                # not a gap-filling site (the min/max pass over the slots' own ranges)
+        n += 1
+        inst = 'fill char.%s @%s' % (own, e['ln'])
+        extra = sorted(k for k in about if k != own)
+        if extra:
+            run.violated('CINFO', inst, fn.loc(e), 'the loop that extends a slot over characters whose `%s` is unset also tests the character\'s %s (%s): it stops at characters '
+                         'the other fill already reached, which then keep %s == -1 and lie in no slot\'s [before, after] range' % (own, extra, about[extra[0]][0], own))
+        else:
+            run.held('CINFO', inst, fn.loc(e), 'guarded by `%s %s %s` and by nothing else about the character' % unset[0])
+    if n < 2:
+        run.broken('CINFO', 'gap filling', 'expected the two gap-filling loops of associateChars (char.after, char.before), found %d' % n, fn.where())
+
+
 def assocdom(run, fx):
     n = 0
     for q in SETTERS:
@@ -174,6 +210,11 @@ def run(run):
     oneperchar(run, fx)
     assocdom(run, fx)
     cinfo(run, fx)
+    gapfill(run, fx)
+    from . import width
+    width.no_narrow(run, fx, 'CINFO', ['graphite2::Slot::m_original', 'graphite2::Slot::m_before', 'graphite2::Slot::m_after',
+                                       'graphite2::CharInfo::m_before', 'graphite2::CharInfo::m_after', 'graphite2::CharInfo::m_base',
+                                       'graphite2::Segment::m_numCharinfo'])
     c12.nulstop(run, fx)
     c12.countsync(run, fx)
     c11.advancebound(run, fx)
